@@ -2,7 +2,7 @@
    ExtrOcamlBasic only: bool, option, list, prod, unit, sumbool map to OCaml's; Z / positive / nat / Q
    stay the extracted inductive types. No Extract Constant / Extract Inductive of our own. *)
 From Coq Require Import QArith.
-Require Import PPLV.Base.FM PPLV.Base.Sys PPLV.Base.Gens PPLV.Poly.PolyOps PPLV.Base.Sup PPLV.Poly.PolyQuery PPLV.Poly.PolyCg PPLV.Poly.GensLeast PPLV.Poly.PolyGenOps PPLV.Poly.PolyOpsLhs PPLV.Poly.PosTimeElapse PPLV.Poly.PolyDiff.
+Require Import PPLV.Base.FM PPLV.Base.Sys PPLV.Base.Gens PPLV.Poly.PolyOps PPLV.Base.Sup PPLV.Poly.PolyQuery PPLV.Poly.PolyCg PPLV.Poly.GensLeast PPLV.Poly.PolyGenOps PPLV.Poly.PolyOpsLhs PPLV.Poly.PosTimeElapse PPLV.Poly.PolyDiff PPLV.Poly.Simplify.
 Require Extraction.
 Require Import ExtrOcamlBasic.
 Extraction Language OCaml.
@@ -17,6 +17,6 @@ Extraction "base.ml"
   q_is_empty q_is_universe q_contains q_strictly_contains q_is_disjoint q_equals
   rel_is_disjoint rel_is_included rel_saturates rel_strictly_intersects
   q_maximize q_minimize q_constant q_bounds_above q_bounds_below q_is_bounded q_is_closed q_constrains
-  cg_intersects cg_included te_gens fold_gens covered_by_union generalized_affine_image_lhs generalized_affine_preimage_lhs pos_time_elapse diff_pieces
+  cg_intersects cg_included te_gens fold_gens covered_by_union generalized_affine_image_lhs generalized_affine_preimage_lhs pos_time_elapse diff_pieces suc_check suc_flag
   empty_sys false_sys Qcompare Qeq_bool Qplus Qmult Qminus Qdiv Qopp Qle_bool inject_Z.
 Cd "../../coq".
